@@ -1,13 +1,13 @@
 SPECIFICATION Spec
 CONSTANTS
-  Inputs <- StringSimInputs
-  GenEdits <- StringGenEdits
+  Inputs <- MCInputs
+  GenEdits <- NoGenEdits
   Shipped = {}
-  TsrValues = {TRUE, FALSE}
-  GenSteps = 6
-  Quick = FALSE
+  TsrValues = {FALSE}
+  GenSteps = 0
+  Quick = TRUE
   PumpK = 3
-  MaxSpan = 8
+  MaxSpan = 4
 INVARIANTS OutcomeDocumented DimsConsistent TokDepthBounded TreeDepthIsNesting
 PROPERTY Termination
 CHECK_DEADLOCK FALSE
